@@ -3,7 +3,7 @@
 //! Needs the instrumentation hook `async_graphql::__verif` (fixes/HOOK-C11-counters.diff,
 //! compiled only with `--cfg async_graphql_verif`).
 //!
-//! Case:   (case (cfg MODE ROOTS RL MD) DOC)
+//! Case:   (case (cfg MODE ROOTS RL MD) DOC [(req OPNAME (vars (NAME VALUE)…))])
 //!   MODE   strict | fast            validation mode of the schema
 //!   ROOTS  full | qonly             schema with / without mutation and subscription roots
 //!   RL     recursion limit (`limit_recursive_depth`)
@@ -11,21 +11,73 @@
 //!   DOC    the document as a tree in the shared wire format (lean/AGV/Core/Types.lean);
 //!          the harness prints it to GraphQL text, parses it with the real parser and
 //!          executes the request through `Schema::execute`.
-//! Output: (out (order OPNAME…) STAGE (c0 … c7))
+//!   req    optional: the request's operation name (none | "name") and variable values
+//! Output: (out (order OPNAME…) STAGE (c0 … c8) REG)
 //!   order  iteration order of `doc.operations` (a HashMap: decides where an early exit happens)
 //!   STAGE  depth | directives | done : the pre-execution check that stopped the request
-//!   c0..c7 the work counters of the hook, reset before the request.
+//!   c0..c8 the work counters of the hook, reset before the request (c8 = calls of
+//!          `is_valid_input_value`; a tree with the older hook reports c0..c7 only).
+//!   REG    what the REAL registry of the schema says about types, fields, arguments, input
+//!          objects (fields in declaration order) and directives — the judge evaluates the cost
+//!          model of value checking against this description.
 
 use agvh::*;
 use async_graphql::{EmptyMutation, EmptySubscription, Object, Schema, Subscription, ValidationMode};
 
 // ------------------------------------------------------------------ schema
 
+#[derive(async_graphql::Enum, Copy, Clone, Eq, PartialEq)]
+enum Color {
+    Red,
+    Green,
+}
+/// recursive input object with list fields (`{and: [{and: [ … {eq: 1} ]}]}`)
+#[derive(async_graphql::InputObject)]
+struct Filter {
+    and: Option<Vec<Filter>>,
+    not: Option<Box<Filter>>,
+    eq: Option<i32>,
+    c: Option<Color>,
+    tags: Option<Vec<Option<String>>>,
+}
+/// `x` required, `y` has a default, `tag` optional (declaration order matters: the check stops early)
+#[derive(async_graphql::InputObject)]
+struct Pt {
+    x: i32,
+    #[graphql(default = 7)]
+    y: i32,
+    tag: Option<String>,
+}
+#[derive(async_graphql::OneofObject)]
+enum One {
+    I(i32),
+    S(String),
+    P(Pt),
+}
+
 struct Query;
 #[Object]
 impl Query {
     async fn a(&self, x: Option<i32>) -> i32 {
         x.unwrap_or(1)
+    }
+    #[allow(clippy::too_many_arguments)]
+    async fn f(
+        &self,
+        p: Option<Filter>,
+        ps: Option<Vec<Filter>>,
+        e: Option<Color>,
+        ids: Option<Vec<Option<Vec<Option<i32>>>>>,
+        nn: Option<Vec<i32>>,
+        pt: Option<Pt>,
+        one: Option<One>,
+        s: Option<String>,
+        id: Option<async_graphql::ID>,
+        fl: Option<f64>,
+        b: Option<bool>,
+    ) -> i32 {
+        let _ = (p, ps, e, ids, nn, pt, one, s, id, fl, b);
+        3
     }
     async fn b(&self) -> i32 {
         2
@@ -52,6 +104,125 @@ struct Sub;
 impl Sub {
     async fn a(&self) -> impl futures_util::Stream<Item = i32> {
         futures_util::stream::iter(vec![1])
+    }
+}
+
+// ------------------------------------------------------------------ what the real registry says
+
+fn tref(s: &str) -> Sexp {
+    if let Some(r) = s.strip_suffix('!') {
+        node("nn", vec![tref(r)])
+    } else if s.starts_with('[') && s.ends_with(']') {
+        node("list", vec![tref(&s[1..s.len() - 1])])
+    } else {
+        st(s)
+    }
+}
+fn arg_sexp(a: &async_graphql::registry::MetaInputValue) -> Sexp {
+    node("arg", vec![st(a.name.clone()), tref(&a.ty), if a.default_value.is_some() { node("some", vec![atom("null")]) } else { atom("none") }])
+}
+/// `(vschema (schema QUERY MUTATION SUBSCRIPTION (types…)) (dirs (dirdef NAME (arg…)…)…) (inputs (input NAME ONEOF (arg…)…)…))`,
+/// a type is `(type NAME KIND (fields…) () () (enum values…))` as in Core/Types.lean.  Types and
+/// directives sorted by name; fields, arguments and input fields in the registry's own order.
+fn dump_registry(reg: &async_graphql::registry::Registry) -> Sexp {
+    use async_graphql::registry::MetaType;
+    let opt = |o: &Option<String>| o.as_ref().map(|s| st(s.clone())).unwrap_or(atom("none"));
+    let mut types = vec![];
+    let mut inputs = vec![];
+    let mut names: Vec<&String> = reg.types.keys().collect();
+    names.sort();
+    for name in names {
+        let t = &reg.types[name];
+        let out_fields = |fields: &indexmap::IndexMap<String, async_graphql::registry::MetaField>| {
+            list(fields.values().map(|f| node("fd", vec![st(f.name.clone()), tref(&f.ty), list(f.args.values().map(arg_sexp).collect())])).collect())
+        };
+        let (kind, fields, values) = match t {
+            MetaType::Scalar { .. } => ("scalar", list(vec![]), list(vec![])),
+            MetaType::Enum { enum_values, .. } => ("enum", list(vec![]), list(enum_values.keys().map(|k| st(k.clone())).collect())),
+            MetaType::Object { fields, .. } => ("object", out_fields(fields), list(vec![])),
+            MetaType::Interface { fields, .. } => ("interface", out_fields(fields), list(vec![])),
+            MetaType::Union { .. } => ("union", list(vec![]), list(vec![])),
+            MetaType::InputObject { input_fields, oneof, .. } => {
+                let mut v = vec![st(name.clone()), atom(if *oneof { "true" } else { "false" })];
+                v.extend(input_fields.values().map(arg_sexp));
+                inputs.push(node("input", v));
+                ("input", list(vec![]), list(vec![]))
+            }
+        };
+        types.push(node("type", vec![st(name.clone()), atom(kind), fields, list(vec![]), list(vec![]), values]));
+    }
+    let mut dnames: Vec<&String> = reg.directives.keys().collect();
+    dnames.sort();
+    let dirs = dnames
+        .into_iter()
+        .map(|n| {
+            let mut v = vec![st(n.clone())];
+            v.extend(reg.directives[n].args.values().map(arg_sexp));
+            node("dirdef", v)
+        })
+        .collect();
+    node(
+        "vschema",
+        vec![node("schema", vec![st(reg.query_type.clone()), opt(&reg.mutation_type), opt(&reg.subscription_type), list(types)]), node("dirs", dirs), node("inputs", inputs)],
+    )
+}
+
+struct DumpF(std::sync::Arc<std::sync::Mutex<Option<Sexp>>>);
+impl async_graphql::extensions::ExtensionFactory for DumpF {
+    fn create(&self) -> std::sync::Arc<dyn async_graphql::extensions::Extension> {
+        std::sync::Arc::new(DumpE(self.0.clone()))
+    }
+}
+struct DumpE(std::sync::Arc<std::sync::Mutex<Option<Sexp>>>);
+#[async_graphql::async_trait::async_trait]
+impl async_graphql::extensions::Extension for DumpE {
+    async fn parse_query(
+        &self,
+        ctx: &async_graphql::extensions::ExtensionContext<'_>,
+        query: &str,
+        variables: &async_graphql::Variables,
+        next: async_graphql::extensions::NextParseQuery<'_>,
+    ) -> async_graphql::ServerResult<async_graphql::parser::types::ExecutableDocument> {
+        *self.0.lock().unwrap() = Some(dump_registry(&ctx.schema_env.registry));
+        next.run(ctx, query, variables).await
+    }
+}
+
+/// the registry of the schema variant (`full`: with mutation and subscription roots), read once
+/// from a schema built exactly like the one the requests run against
+fn registry_sexp(full: bool) -> Sexp {
+    static CACHE: [std::sync::OnceLock<Sexp>; 2] = [std::sync::OnceLock::new(), std::sync::OnceLock::new()];
+    CACHE[full as usize]
+        .get_or_init(|| {
+            let slot = std::sync::Arc::new(std::sync::Mutex::new(None));
+            if full {
+                let _ = spin_on(Schema::build(Query, Mutation, Sub).extension(DumpF(slot.clone())).finish().execute("{ __typename }"));
+            } else {
+                let _ = spin_on(Schema::build(Query, EmptyMutation, EmptySubscription).extension(DumpF(slot.clone())).finish().execute("{ __typename }"));
+            }
+            let d = slot.lock().unwrap().take().expect("registry dump");
+            d
+        })
+        .clone()
+}
+
+/// a constant value of the wire format as JSON (request variables): enums become strings
+fn to_json(v: &Sexp) -> serde_json::Value {
+    match v {
+        Sexp::Atom(a) => match a.as_str() {
+            "null" => serde_json::Value::Null,
+            "true" => serde_json::Value::Bool(true),
+            "false" => serde_json::Value::Bool(false),
+            n => serde_json::Value::Number(n.parse::<i64>().expect("int").into()),
+        },
+        Sexp::Str(s) => serde_json::Value::String(s.clone()),
+        Sexp::List(xs) => match xs.first().and_then(|x| x.as_atom()) {
+            Some("e") => serde_json::Value::String(xs[1].as_str().unwrap().to_string()),
+            Some("f") => serde_json::Value::Number(serde_json::Number::from_f64(xs[1].as_str().unwrap().parse::<f64>().unwrap()).unwrap()),
+            Some("list") => serde_json::Value::Array(xs[1..].iter().map(to_json).collect()),
+            Some("obj") => serde_json::Value::Object(xs[1..].iter().map(|kv| (kv.as_list().unwrap()[0].as_str().unwrap().to_string(), to_json(&kv.as_list().unwrap()[1]))).collect()),
+            _ => panic!("bad constant"),
+        },
     }
 }
 
@@ -436,6 +607,364 @@ fn chain(n: usize, k: usize, k0: usize, leaf: &str) -> Sexp {
     doc(vec![op("query", None, vec![], vec![], (0..k0).map(|_| spread("F0", vec![])).collect())], frags)
 }
 
+// ------------------------------------------------------------------ input-value families
+
+fn vlist(xs: Vec<Sexp>) -> Sexp {
+    node("list", xs)
+}
+fn vobj(fs: Vec<(&str, Sexp)>) -> Sexp {
+    node("obj", fs.into_iter().map(|(k, v)| list(vec![st(k), v])).collect())
+}
+fn venum(n: &str) -> Sexp {
+    node("e", vec![st(n)])
+}
+fn vvar(n: &str) -> Sexp {
+    list(vec![atom("var"), st(n)])
+}
+fn tlist(t: Sexp) -> Sexp {
+    node("list", vec![t])
+}
+fn tnn(t: Sexp) -> Sexp {
+    node("nn", vec![t])
+}
+/// a constant as it arrives in the request's variables (JSON has no enum values: strings)
+fn jsonify(v: &Sexp) -> Sexp {
+    match v {
+        Sexp::List(xs) => match xs.first().and_then(|x| x.as_atom()) {
+            Some("e") => xs[1].clone(),
+            Some("list") => node("list", xs[1..].iter().map(jsonify).collect()),
+            Some("obj") => node("obj", xs[1..].iter().map(|kv| list(vec![kv.as_list().unwrap()[0].clone(), jsonify(&kv.as_list().unwrap()[1])])).collect()),
+            _ => v.clone(),
+        },
+        _ => v.clone(),
+    }
+}
+fn vardef(name: &str, ty: Sexp, default: Option<Sexp>) -> Sexp {
+    node("vardef", vec![st(name), ty, default.map(|d| node("some", vec![d])).unwrap_or(atom("none"))])
+}
+const BASES: [&str; 7] = ["Int", "String", "Boolean", "Color", "Filter", "Float", "ID"];
+/// a value that IS valid for the named type (small ints only: the range of Int is another property's business)
+fn good_leaf(rng: &mut Rng, base: &str) -> Sexp {
+    match base {
+        "Int" => num(rng.range(-5, 100)),
+        "String" => st(*rng.pick(&["", "s", "RED"])),
+        "Boolean" => atom(*rng.pick(&["true", "false"])),
+        "Color" => venum(*rng.pick(&["RED", "GREEN"])),
+        "Float" => {
+            if rng.chance(1, 2) {
+                node("f", vec![st("1.5")])
+            } else {
+                num(rng.below(9))
+            }
+        }
+        "ID" => {
+            if rng.chance(1, 2) {
+                st("id1")
+            } else {
+                num(rng.below(9))
+            }
+        }
+        "Pt" => match rng.below(3) {
+            0 => vobj(vec![("x", num(1))]),
+            1 => vobj(vec![("tag", st("t")), ("x", num(2)), ("y", num(3))]),
+            _ => vobj(vec![("y", atom("null")), ("x", num(0))]),
+        },
+        "One" => match rng.below(3) {
+            0 => vobj(vec![("i", num(1))]),
+            1 => vobj(vec![("s", st("x"))]),
+            _ => vobj(vec![("p", vobj(vec![("x", num(1))]))]),
+        },
+        _ => match rng.below(4) {
+            0 => vobj(vec![]),
+            1 => vobj(vec![("eq", num(rng.below(5)))]),
+            2 => vobj(vec![("c", venum("GREEN")), ("eq", atom("null"))]),
+            _ => vobj(vec![("tags", vlist(vec![st("a"), atom("null")])), ("not", vobj(vec![("eq", num(1))]))]),
+        },
+    }
+}
+/// a non-null value that is NOT valid for the named type
+fn bad_leaf(rng: &mut Rng, base: &str) -> Sexp {
+    match base {
+        "Int" => match rng.below(3) {
+            0 => st("x"),
+            1 => atom("true"),
+            _ => node("f", vec![st("1.5")]),
+        },
+        "String" => num(3),
+        "Boolean" => num(1),
+        "Color" => match rng.below(3) {
+            0 => venum("BLUE"),
+            1 => num(2),
+            _ => atom("true"),
+        },
+        "Float" => st("1.5"),
+        "ID" => atom("true"),
+        "Pt" => match rng.below(5) {
+            0 => vobj(vec![("y", num(1))]),
+            1 => vobj(vec![("tag", num(1)), ("x", st("bad"))]),
+            2 => vobj(vec![("x", num(1)), ("zz", num(2))]),
+            3 => vobj(vec![("x", num(1)), ("x", st("later occurrence wins"))]),
+            _ => num(5),
+        },
+        "One" => match rng.below(5) {
+            0 => vobj(vec![]),
+            1 => vobj(vec![("i", num(1)), ("s", st("x"))]),
+            2 => vobj(vec![("i", atom("null"))]),
+            3 => vobj(vec![("p", vobj(vec![("y", num(1))]))]),
+            _ => vobj(vec![("i", st("x"))]),
+        },
+        _ => match rng.below(5) {
+            0 => vobj(vec![("eq", st("x"))]),
+            1 => vobj(vec![("zz", num(1))]),
+            2 => num(3),
+            3 => vobj(vec![("and", vlist(vec![vobj(vec![]), vobj(vec![("c", venum("BLUE"))])]))]),
+            _ => vobj(vec![("tags", vlist(vec![st("a"), num(1), st("b")]))]),
+        },
+    }
+}
+fn leaf_of(rng: &mut Rng, base: &str, bad: bool) -> Sexp {
+    if bad {
+        bad_leaf(rng, base)
+    } else {
+        good_leaf(rng, base)
+    }
+}
+/// `d` list levels around leaves of `base`; `bad_at`: the path (element index per level) of the one
+/// invalid leaf, if any.  `widths[i]` elements at level i.
+fn nested(rng: &mut Rng, base: &str, widths: &[usize], bad_at: Option<&[usize]>) -> Sexp {
+    match widths.split_first() {
+        None => leaf_of(rng, base, bad_at.is_some()),
+        Some((&w, rest)) => vlist(
+            (0..w)
+                .map(|i| {
+                    let here = bad_at.filter(|p| p[0] == i).map(|p| &p[1..]);
+                    nested(rng, base, rest, here)
+                })
+                .collect(),
+        ),
+    }
+}
+/// `{and: [ … {and: [LEAF]} … ]}` — list levels through the recursive input object
+fn nested_filter(rng: &mut Rng, d: usize, bad: bool) -> Sexp {
+    if d == 0 {
+        return leaf_of(rng, "Filter", bad);
+    }
+    let inner = nested_filter(rng, d - 1, bad);
+    let mut elems = vec![];
+    if rng.chance(1, 4) {
+        elems.push(good_leaf(rng, "Filter"));
+    }
+    elems.push(inner);
+    if rng.chance(1, 4) {
+        elems.push(good_leaf(rng, "Filter"));
+    }
+    let mut fs = vec![];
+    if rng.chance(1, 4) {
+        fs.push(("eq", num(1)));
+    }
+    if rng.chance(1, 6) {
+        // through `not` instead of a list level
+        fs.push(("not", vobj(vec![("and", vlist(elems))])));
+    } else {
+        fs.push(("and", vlist(elems)));
+    }
+    if rng.chance(1, 4) {
+        fs.push(("c", venum("RED")));
+    }
+    vobj(fs)
+}
+/// a value for one of the arguments of `Query.f`: (argument name, value, supplied variables)
+fn f_arg(rng: &mut Rng, vars: &mut Vec<(String, Sexp)>) -> (&'static str, Sexp) {
+    const ARGS: [(&str, &str, usize); 11] =
+        [("p", "Filter", 0), ("ps", "Filter", 1), ("e", "Color", 0), ("ids", "Int", 2), ("nn", "Int", 1), ("pt", "Pt", 0), ("one", "One", 0), ("s", "String", 0), ("id", "ID", 0), ("fl", "Float", 0), ("b", "Boolean", 0)];
+    let (name, base, lists) = *rng.pick(&ARGS);
+    let bad = rng.chance(1, 3);
+    let mut v = match rng.below(10) {
+        0 => atom("null"),
+        // a scalar where a list is expected (input coercion: the same value against the inner type)
+        1 => leaf_of(rng, base, bad),
+        _ => {
+            let widths: Vec<usize> = (0..lists).map(|_| 1 + rng.below(3)).collect();
+            let path: Vec<usize> = widths.iter().map(|w| rng.below(*w)).collect();
+            nested(rng, base, &widths, if bad { Some(&path) } else { None })
+        }
+    };
+    // sometimes through a variable (with or without a supplied value), whole or as a list element
+    match rng.below(8) {
+        0 => {
+            let vn = format!("w{}", vars.len());
+            if rng.chance(3, 4) {
+                vars.push((vn.clone(), jsonify(&v)));
+            }
+            v = vvar(&vn);
+        }
+        1 if lists > 0 => {
+            let vn = format!("w{}", vars.len());
+            if rng.chance(3, 4) {
+                let b = rng.chance(1, 3);
+                vars.push((vn.clone(), jsonify(&leaf_of(rng, base, b))));
+            }
+            v = vlist(vec![v, vvar(&vn)]);
+        }
+        _ => {}
+    }
+    (name, v)
+}
+fn vdir(rng: &mut Rng, vars: &mut Vec<(String, Sexp)>) -> Sexp {
+    let name = *rng.pick(&["skip", "include", "include", "zz", "deprecated"]);
+    let v = match rng.below(6) {
+        0 => num(1),
+        1 => vlist(vec![vlist(vec![atom("true")])]),
+        2 => atom("null"),
+        3 => {
+            if rng.chance(1, 2) && !vars.iter().any(|(n, _)| n == "bv") {
+                vars.push(("bv".to_string(), atom(*rng.pick(&["true", "1"]))));
+            }
+            vvar("bv")
+        }
+        _ => atom("true"),
+    };
+    dir(name, vec![(*rng.pick(&["if", "if", "if", "reason", "zz"]), v)])
+}
+/// selections that put values everywhere the walker looks (and in places it does not)
+fn value_sels(rng: &mut Rng, vars: &mut Vec<(String, Sexp)>, depth: usize) -> Vec<Sexp> {
+    let n = 1 + rng.below(3);
+    let mut out = vec![];
+    for _ in 0..n {
+        let dirs: Vec<Sexp> = (0..if rng.chance(1, 4) { 1 + rng.below(2) } else { 0 }).map(|_| vdir(rng, vars)).collect();
+        match rng.below(12) {
+            0..=4 => {
+                let k = 1 + rng.below(3);
+                let args: Vec<(&str, Sexp)> = (0..k).map(|_| f_arg(rng, vars)).collect();
+                out.push(field(if rng.chance(1, 3) { Some("k") } else { None }, "f", args, dirs, vec![]));
+            }
+            5 => out.push(field(None, "a", vec![("x", if rng.chance(1, 2) { st("bad") } else { vlist(vec![num(1)]) })], dirs, vec![])),
+            6 if depth < 3 => {
+                let sub = value_sels(rng, vars, depth + 1);
+                out.push(field(None, *rng.pick(&["q", "l", "zz"]), vec![], dirs, sub));
+            }
+            7 if depth < 3 => {
+                // under another (or an unknown) type the arguments of `f` are unknown: nothing is checked
+                let sub = value_sels(rng, vars, depth + 1);
+                out.push(inline(Some(*rng.pick(&["Query", "Mutation", "Nope", "Filter"])), dirs, sub));
+            }
+            8 if depth < 3 => {
+                let sub = value_sels(rng, vars, depth + 1);
+                out.push(inline(None, dirs, sub));
+            }
+            9 => out.push(spread("VF", dirs)),
+            10 => out.push(field(None, "__typename", vec![("x", num(1))], dirs, vec![])),
+            _ => out.push(field(None, "zz", vec![("x", st("unknown field"))], dirs, vec![])),
+        }
+    }
+    out
+}
+fn random_type(rng: &mut Rng, base: &str, layers: usize) -> Sexp {
+    let mut t = st(base);
+    if rng.chance(1, 4) {
+        t = tnn(t);
+    }
+    for _ in 0..layers {
+        t = tlist(t);
+        if rng.chance(1, 4) {
+            t = tnn(t);
+        }
+    }
+    t
+}
+
+/// (document, request, family)
+fn gen_value_doc(rng: &mut Rng) -> (Sexp, Sexp, &'static str) {
+    let mut vars: Vec<(String, Sexp)> = vec![];
+    let mut opname = atom("none");
+    let (d, fam) = match rng.below(6) {
+        0 | 1 => {
+            // `$v: [[[[T]]]] = [[[[bad]]]]`: list levels written in the document itself (any schema)
+            let nv = 1 + rng.below(2);
+            let mut defs = vec![];
+            for i in 0..nv {
+                let base = *rng.pick(&BASES);
+                let depth = rng.below(13);
+                let widths: Vec<usize> = (0..depth).map(|_| if rng.chance(1, 4) { 2 + rng.below(2) } else { 1 }).collect();
+                let path: Vec<usize> = widths.iter().map(|w| rng.below(*w)).collect();
+                let bad = rng.chance(3, 4);
+                let v = nested(rng, base, &widths, if bad { Some(&path) } else { None });
+                // the declared type has `depth` list levels, sometimes fewer or more (coercion / mismatch)
+                let layers = match rng.below(8) {
+                    0 => depth + 1 + rng.below(3),
+                    1 => depth.saturating_sub(1),
+                    _ => depth,
+                };
+                defs.push(vardef(&format!("v{i}"), random_type(rng, base, layers), Some(v)));
+            }
+            let ty = *rng.pick(&["query", "query", "query", "mutation"]);
+            (doc(vec![op(ty, None, defs, vec![], vec![field(None, "a", vec![("x", vvar("v0"))], vec![], vec![])])], vec![]), "fam_value_nested_default")
+        }
+        2 => {
+            // list levels through the recursive input object, as a literal or through a variable
+            let depth = rng.below(11);
+            let v = nested_filter(rng, depth, rng.chance(3, 4));
+            let arg = if rng.chance(1, 3) {
+                vars.push(("p".to_string(), jsonify(&v)));
+                vvar("p")
+            } else {
+                v
+            };
+            let uses = 1 + rng.below(3);
+            let sels: Vec<Sexp> = (0..uses).map(|i| field(Some(&format!("k{i}")), "f", vec![if rng.chance(1, 3) { ("ps", vlist(vec![arg.clone()])) } else { ("p", arg.clone()) }], vec![], vec![])).collect();
+            (doc(vec![op("query", None, vec![vardef("p", st("Filter"), None)], vec![], sels)], vec![]), "fam_value_nested_input")
+        }
+        3 => {
+            // wide lists
+            let w = rng.below(200);
+            let bad_at = if rng.chance(1, 2) { Some(rng.below(w + 1)) } else { None };
+            let row: Vec<Sexp> = (0..w).map(|i| if Some(i) == bad_at { st("x") } else if rng.chance(1, 20) { atom("null") } else { num(i) }).collect();
+            let (name, v) = match rng.below(3) {
+                0 => ("nn", vlist(row)),
+                1 => ("ids", vlist(vec![vlist(row.clone()), vlist(row)])),
+                _ => ("ids", vlist(row.into_iter().map(|x| vlist(vec![x])).collect())),
+            };
+            let arg = if rng.chance(1, 3) {
+                vars.push(("w".to_string(), jsonify(&v)));
+                vvar("w")
+            } else {
+                v
+            };
+            (doc(vec![op("query", None, vec![vardef("w", tlist(st("Int")), None)], vec![], vec![field(None, "f", vec![(name, arg)], vec![], vec![])])], vec![]), "fam_value_wide")
+        }
+        _ => {
+            // values everywhere: field and directive arguments, fragments, several operations
+            let nops = 1 + rng.below(3);
+            let mut ops = vec![];
+            for i in 0..nops {
+                let mut defs = vec![];
+                for j in 0..rng.below(3) {
+                    let base = *rng.pick(&["Int", "Color", "Filter", "Pt", "One", "Nope", "String"]);
+                    let layers = if base == "Nope" { 0 } else { rng.below(3) };
+                    let widths: Vec<usize> = (0..layers).map(|_| 1 + rng.below(2)).collect();
+                    let path: Vec<usize> = widths.iter().map(|_| 0).collect();
+                    let bad = rng.chance(1, 2);
+                    let default = if rng.chance(3, 4) { Some(nested(rng, if base == "Nope" { "Int" } else { base }, &widths, if bad { Some(&path) } else { None })) } else { None };
+                    defs.push(vardef(&format!("d{j}"), random_type(rng, base, layers), default));
+                }
+                let ty = *rng.pick(&["query", "query", "query", "mutation", "subscription"]);
+                let odirs = if rng.chance(1, 5) { vec![vdir(rng, &mut vars)] } else { vec![] };
+                let sels = if ty == "query" { value_sels(rng, &mut vars, 0) } else { vec![field(None, "a", vec![("x", num(1))], vec![], vec![])] };
+                ops.push(op(ty, if nops == 1 && rng.chance(1, 2) { None } else { Some(&format!("Op{i}")) }, defs, odirs, sels));
+            }
+            if nops > 1 && rng.chance(1, 2) {
+                // variables do not apply to the operations that are not selected
+                opname = st(format!("Op{}", rng.below(nops + 1)));
+            }
+            let fdirs = if rng.chance(1, 4) { vec![vdir(rng, &mut vars)] } else { vec![] };
+            let fsels = value_sels(rng, &mut vars, 2);
+            (doc(ops, vec![frag("VF", *rng.pick(&["Query", "Query", "Mutation", "Nope"]), fdirs, fsels)]), "fam_value_mixed")
+        }
+    };
+    let req = node("req", vec![opname, node("vars", vars.into_iter().map(|(k, v)| list(vec![st(k), v])).collect())]);
+    (d, req, fam)
+}
+
 fn gen_doc(rng: &mut Rng, dist: &mut Dist) -> (Sexp, &'static str) {
     match rng.below(20) {
         0 | 1 | 2 => {
@@ -528,9 +1057,20 @@ fn gen_doc(rng: &mut Rng, dist: &mut Dist) -> (Sexp, &'static str) {
 }
 
 fn gen_case(rng: &mut Rng, _i: usize, _o: &Opts, dist: &mut Dist) -> Sexp {
-    let (d, fam) = gen_doc(rng, dist);
+    let value_family = rng.chance(3, 10);
+    let (d, req, fam) = if value_family {
+        gen_value_doc(rng)
+    } else {
+        let (d, fam) = gen_doc(rng, dist);
+        // the documents use `$v` in arguments and directives: sometimes it has a value
+        let req = match rng.below(4) {
+            0 => node("req", vec![atom("none"), node("vars", vec![list(vec![st("v"), atom(*rng.pick(&["true", "1", "null"]))])])]),
+            _ => node("req", vec![atom("none"), node("vars", vec![])]),
+        };
+        (d, req, fam)
+    };
     dist.hit(fam);
-    let mode = if rng.chance(1, 2) { "strict" } else { "fast" };
+    let mode = if rng.chance(if value_family { 4 } else { 1 }, if value_family { 5 } else { 2 }) { "strict" } else { "fast" };
     let roots = if rng.chance(1, 2) { "full" } else { "qonly" };
     let rl = match rng.below(10) {
         0..=5 => 32,
@@ -545,7 +1085,7 @@ fn gen_case(rng: &mut Rng, _i: usize, _o: &Opts, dist: &mut Dist) -> Sexp {
     };
     dist.hit(&format!("mode_{mode}"));
     dist.hit(&format!("roots_{roots}"));
-    node("case", vec![node("cfg", vec![atom(mode), atom(roots), num(rl), md]), d])
+    node("case", vec![node("cfg", vec![atom(mode), atom(roots), num(rl), md]), d, req])
 }
 
 // ------------------------------------------------------------------ runner
@@ -562,6 +1102,22 @@ fn run(case: &Sexp, dist: &mut Dist) -> Sexp {
         eprintln!("{text}");
     }
     let mut req = async_graphql::Request::new(text);
+    if let Some(r) = a.get(2) {
+        let ra = r.args();
+        if let Some(n) = ra[0].as_str() {
+            req = req.operation_name(n);
+        }
+        // the first entry of a repeated name wins (`List.find?` in the model)
+        let mut m = serde_json::Map::new();
+        for kv in ra[1].args() {
+            let kv = kv.as_list().unwrap();
+            let k = kv[0].as_str().unwrap().to_string();
+            if !m.contains_key(&k) {
+                m.insert(k, to_json(&kv[1]));
+            }
+        }
+        req = req.variables(async_graphql::Variables::from_json(serde_json::Value::Object(m)));
+    }
     let order: Vec<Sexp> = match req.parsed_query() {
         Ok(d) => d.operations.iter().map(|(n, _)| n.map(|n| st(n.as_str())).unwrap_or(atom("none"))).collect(),
         Err(_) => {
@@ -604,7 +1160,18 @@ fn run(case: &Sexp, dist: &mut Dist) -> Sexp {
         1000..=9999 => "visits_1k_10k",
         _ => "visits_10k_up",
     });
-    node("out", vec![node("order", order), atom(stage), list(c.iter().map(|x| num(*x)).collect())])
+    if c.len() > 8 {
+        dist.hit(match c[8] {
+            0 => "value_checks_0",
+            1..=9 => "value_checks_1_9",
+            10..=99 => "value_checks_10_99",
+            100..=999 => "value_checks_100_999",
+            _ => "value_checks_1k_up",
+        });
+    } else {
+        dist.hit("hook_without_value_checks");
+    }
+    node("out", vec![node("order", order), atom(stage), list(c.iter().map(|x| num(*x)).collect()), registry_sexp(full)])
 }
 
 fn main() {
